@@ -31,6 +31,9 @@ func TestDiag(t *testing.T) {
 			f[2]++
 		}
 		fl[m.Name] = f
+		if o.Leak != nil {
+			fmt.Println("LEAK", i, o.Leak.Detail)
+		}
 		if o.Viol != nil {
 			fmt.Println("VIOL", o.Viol.Sig, o.Viol.Detail)
 		}
